@@ -51,7 +51,7 @@ def scenario_script(name):
         body = ["emitraw OB. 0102030405060708"] * 700 + ["flush"] + ["emitraw OB. -"] * 100 + ["emitraw OHe -", "flush"]
     else:
         raise ValueError(name)
-    mode = "tmp" if name.endswith("tmp") else "direct"
+    mode = "tmp" if "-tmp" in name else "direct"
     return mode, base + body + ["free", "fini"]
 
 
@@ -246,6 +246,11 @@ class Scenario:
             env = {"OVNI_TRACEDIR": os.path.join(d, "final")}
             if self.mode == "tmp":
                 env["OVNI_TMPDIR"] = os.path.join(d, "tmp")
+            if self.name.endswith("-pre"):
+                # the trace directories already exist (another process of the loom was there first)
+                for root in (env.get("OVNI_TMPDIR"), env["OVNI_TRACEDIR"]):
+                    if root:
+                        os.makedirs(os.path.join(root, "loom.node0", "proc.999", "thread.999"))
             if shim:
                 env.update({"LD_PRELOAD": shim, "VERIF_SHORTWRITE": "40"})
             cmd = ["strace", "-f", "-o", os.path.join(d, "strace.log"), "-e", "trace=" + TRACED]
@@ -352,7 +357,8 @@ def main(pid, tier):
         if not neg and r.violated:
             ck.violation("RtFs model violates %s" % r.violated, {"tlc.out": r.out[-20000:]})
     ck.phase("tlc")
-    names = ["small-direct", "small-tmp", "boundary-tmp", "one-direct", "one-tmp", "boundary-direct", "bigmeta-tmp"]
+    names = ["small-direct", "small-tmp", "boundary-tmp", "one-direct", "one-tmp", "boundary-direct", "bigmeta-tmp",
+             "small-tmp-pre", "one-direct-pre"]
     if tier == "thorough":
         names += ["big-tmp", "big-direct", "bigmeta-direct"]
     execs = []
